@@ -70,6 +70,45 @@ func hostileHandle(raw []byte) map[string]interface{} {
 		return map[string]interface{}{"error": err.Error()}
 	}
 	var c *tengo.Compiled
+	if pc.Path == "script-bg" || pc.Path == "script-timeout" {
+		// the context-aware entry point of Script: compiles and runs; the Compiled object it returns is then used further
+		var o V
+		r := guarded(func() error {
+			ctx := context.Background()
+			if pc.Path == "script-timeout" {
+				var cancel context.CancelFunc
+				ctx, cancel = context.WithTimeout(ctx, 3*time.Second)
+				defer cancel()
+			}
+			var e error
+			c, e = s.RunContext(ctx)
+			if e != nil {
+				if errors.Is(e, context.DeadlineExceeded) {
+					o = V{"k": "timeout"}
+				} else {
+					o = V{"k": "runtime_error", "kind": classifyRuntime(e), "msg": clip(e.Error())}
+				}
+			} else {
+				o = V{"k": "ok"}
+			}
+			return e
+		})
+		out["compile"] = "ok"
+		out["run"] = r
+		out["outcome"] = o
+		out["path"] = pc.Path
+		if c == nil {
+			return out // Script.RunContext returns no object when the run failed
+		}
+		out["getall"] = guarded(func() error { _ = encodeGlobals(c); return nil })
+		r2 := guarded(func() error {
+			ctx, cancel := context.WithTimeout(context.Background(), 3*time.Second)
+			defer cancel()
+			return c.RunContext(ctx)
+		})
+		out["rerun"] = r2
+		return out
+	}
 	cres := guarded(func() error { var e error; c, e = s.Compile(); return e })
 	out["compile"] = cres
 	if cres != "ok" {
@@ -88,6 +127,9 @@ func hostileHandle(raw []byte) map[string]interface{} {
 		r := guarded(func() error {
 			ctx, cancel := context.WithTimeout(context.Background(), to)
 			defer cancel()
+			if pc.Path == "compiled-bg" {
+				ctx = context.Background() // never cancellable: only for programs that end by themselves
+			}
 			e := c.RunContext(ctx)
 			if e != nil {
 				if errors.Is(e, context.DeadlineExceeded) {
@@ -147,6 +189,24 @@ func hostileHandle(raw []byte) map[string]interface{} {
 		out["set"] = guarded(func() error { return c.Set(names[0], 1) })
 	}
 	out["set_unknown"] = guarded(func() error { return c.Set("no_such_variable", 1) })
+	if len(pc.Repair) > 0 {
+		// the embedder repairs the input after a failed run: the same object must then run to completion
+		for _, kv := range pc.Repair {
+			name, _ := kv[0].(string)
+			v, err := decodeValue(kv[1])
+			if err != nil {
+				return map[string]interface{}{"error": err.Error()}
+			}
+			out["repair_set"] = guarded(func() error { return c.Set(name, v) })
+		}
+		rr, ro := run(c)
+		out["repaired_run"] = rr
+		out["repaired_outcome"] = ro
+		if ro != nil && ro["k"] == "ok" {
+			ro["g"] = encodeGlobals(c)
+		}
+		return out
+	}
 	r2, o2 := run(c)
 	out["rerun"] = r2
 	out["rerun_outcome"] = o2
